@@ -79,6 +79,193 @@ def _method(src, header_re, what):
     return src[k + 1:cxxscan.match_brace(src, k)]
 
 
+# ------------------------------------------------------------------ lock scopes (C12: get() ∥ writer, seed C12-c)
+# Which RAII guard on _mutex / _cacheMutex is live at every access to _cache, _kv and _expiry.  A guard `std::xxx_lock<std::shared_mutex>
+# v(m);` is live from its declaration to the end of the block that contains it; manual unlock/lock and guard-less locking are shapes
+# this extraction does not have (TranslateError), except the one failure path of startTtlOrCleanup (unlock; shutdown(); throw;).
+_KW = {"if", "while", "for", "switch", "catch", "return", "sizeof", "decltype", "noexcept", "alignas", "static_assert"}
+
+
+def _class_methods(src, cls):
+    """Every member-function definition written inside `class cls { ... }`: list of (name, header, body).  Overloads are kept apart.
+    Nested types are skipped whole (their members are not member functions of `cls`)."""
+    m = re.search(r"\bclass\s+%s\b[^;{]*\{" % re.escape(cls), src)
+    if not m:
+        raise TranslateError("class %s not found" % cls)
+    lo, hi = m.end(), cxxscan.match_brace(src, m.end() - 1)
+    out = []
+    i = lo
+    start = lo          # start of the current declaration
+    while i < hi:
+        c = src[i]
+        if c == '"' or c == "'":
+            q = c
+            i += 1
+            while i < hi and src[i] != q:
+                i += 2 if src[i] == "\\" else 1
+            i += 1
+        elif c == ";":
+            start = i + 1
+            i += 1
+        elif c == "{":
+            end = cxxscan.match_brace(src, i)
+            header = src[start:i]
+            mh = None
+            if not re.search(r"\b(struct|class|enum|union|namespace)\b", header) and not re.search(r"=\s*$", header):
+                for mm in re.finditer(r"(~?\w+)\s*\(", header):
+                    if mm.group(1) not in _KW:
+                        mh = mm
+                        break
+            if mh:
+                out.append((mh.group(1), " ".join(header.split()), src[i + 1:end]))
+            # `T x{..};` / `T x = {..};` member initialisers and nested types end at the next ';'; a function body ends here
+            i = end + 1
+            if mh:
+                start = i
+        else:
+            i += 1
+    return out
+
+
+def _scope_end(body, pos):
+    """Index in `body` where the block enclosing `pos` ends (len(body) for the function's outermost block)."""
+    depth = 0
+    i = pos
+    while i < len(body):
+        c = body[i]
+        if c == '"' or c == "'":
+            q = c
+            i += 1
+            while i < len(body) and body[i] != q:
+                i += 2 if body[i] == "\\" else 1
+        elif c == "{":
+            depth += 1
+        elif c == "}":
+            if depth == 0:
+                return i
+            depth -= 1
+        i += 1
+    return len(body)
+
+
+_LOCK_RE = re.compile(r"std::(shared_lock|unique_lock|lock_guard|scoped_lock)\s*<\s*std::shared_mutex\s*>\s+(\w+)\s*\(\s*(_mutex|_cacheMutex)\s*\)\s*;")
+_CACHE_WRITE_RE = re.compile(r"\b_cache\s*\.\s*(?:erase|clear|insert|emplace|try_emplace|insert_or_assign|swap|rehash|reserve|extract|merge)\s*\(|\b_cache\s*\[[^\]]*\]\s*=(?!=)|\b_cache\s*=(?!=)")
+_CACHE_READ_RE = re.compile(r"\b_cache\s*\.\s*(?:find|count|at|size|empty|contains)\s*\(")
+_STORE_WRITE_RE = re.compile(r"\b(?:_kv|_expiry)\s*\.\s*(?:erase|clear|insert|emplace|try_emplace|insert_or_assign|swap|extract|merge)\s*\(|\b(?:_kv|_expiry)\s*\[[^\]]*\]\s*=(?!=)|\b(?:_kv|_expiry)\s*=(?!=)")
+_STORE_READ_RE = re.compile(r"\b(?:_kv|_expiry)\s*\.\s*(?:find|count|at|size|empty|contains|begin|end)\s*\(")
+
+
+def locks_of(body):
+    """(position, mode 'S'|'X', mutex, end of scope, variable) of every RAII lock on a std::shared_mutex declared in `body`."""
+    out = []
+    for m in _LOCK_RE.finditer(body):
+        out.append((m.end(), "S" if m.group(1) == "shared_lock" else "X", m.group(3), _scope_end(body, m.end()), m.group(2)))
+    return out
+
+
+def held(locks, pos, mutex, modes):
+    return [l for l in locks if l[2] == mutex and l[1] in modes and l[0] <= pos < l[3]]
+
+
+def _lock_facts(src):
+    ms = _class_methods(src, "KVStore")
+    by_name = {}
+    for name, header, body in ms:
+        by_name.setdefault(name, []).append((header, body))
+    # manual unlock/lock/release of a shared_mutex guard: only the failure path of startTtlOrCleanup (unlock; shutdown(); throw;)
+    for n, h, b in ms:
+        for mm in re.finditer(r"\b(\w+)\s*\.\s*(unlock|lock|release|try_lock)\s*\(\s*\)", b):
+            var = mm.group(1)
+            if re.search(r"std::(?:unique_lock|shared_lock)\s*<\s*std::shared_mutex\s*>\s*&?\s*%s\b" % re.escape(var), h + b):
+                tail = re.sub(r"\s+", "", b[mm.end():mm.end() + 40])
+                if not (n == "startTtlOrCleanup" and mm.group(2) == "unlock" and tail.startswith(";shutdown();throw;")):
+                    raise TranslateError("lock scopes: manual %s.%s() in %s is a shape the lock-scope extraction does not have" % (var, mm.group(2), n))
+    if re.search(r"\b(_mutex|_cacheMutex)\s*\.\s*(lock|unlock|lock_shared|unlock_shared|try_lock)\w*\s*\(", src):
+        raise TranslateError("lock scopes: _mutex/_cacheMutex locked without an RAII guard")
+    # ---- (1) every access to _cache happens under _cacheMutex (writes: exclusive) taken in the same function
+    cache_fns = []
+    cache_ok = True
+    for name, header, body in ms:
+        locks = locks_of(body)
+        w = [m.start() for m in _CACHE_WRITE_RE.finditer(body)]
+        r = [m.start() for m in _CACHE_READ_RE.finditer(body)]
+        if w or r:
+            cache_fns.append(name)
+        for p in w:
+            cache_ok &= bool(held(locks, p, "_cacheMutex", "X"))
+        for p in r:
+            cache_ok &= bool(held(locks, p, "_cacheMutex", "SX"))
+    want_fns = ["clear", "compactLocked", "evictionCallback", "get", "invalidateCache", "remove", "set", "set", "setBatch", "setBatch", "updateCache"]
+    if sorted(cache_fns) != want_fns:
+        raise TranslateError("lock scopes: _cache is accessed in %r, expected %r" % (sorted(cache_fns), want_fns))
+    # ---- (2) get(): the value/expiry lookup and the cache refill happen under ONE hold of _mutex
+    if len(by_name.get("get", [])) != 1:
+        raise TranslateError("lock scopes: expected exactly one get(), found %d" % len(by_name.get("get", [])))
+    gh, gb = by_name["get"][0]
+    glocks = locks_of(gb)
+    refills = [m.start() for m in re.finditer(r"\bupdateCache\s*\(", gb)]
+    if len(refills) != 1:
+        raise TranslateError("lock scopes: get() calls updateCache %d times, expected once" % len(refills))
+    store_reads = [m.start() for m in _STORE_READ_RE.finditer(gb)]
+    if not store_reads or _STORE_WRITE_RE.search(gb):
+        raise TranslateError("lock scopes: get() does not read _kv/_expiry, or writes them")
+    hold = held(glocks, refills[0], "_mutex", "SX")
+    get_ok = bool(hold) and all(any(l[0] <= p < l[3] for l in hold) for p in store_reads)
+    # the fast path reads the cache under _cacheMutex only (no _mutex held): it blocks no writer
+    fast = [m.start() for m in _CACHE_READ_RE.finditer(gb)]
+    fast_ok = bool(fast) and all(not held(glocks, p, "_mutex", "SX") for p in fast)
+    # ---- (3) every other function that touches the cache (directly or through updateCache/invalidateCache) and every function that
+    # writes _kv/_expiry does so while _mutex is held exclusively: by a guard of its own, or (function without a guard on _mutex)
+    # because every call site of it is.  load() and the expiry sweep run in the constructor only (no other thread has the object).
+    def callers(fn):
+        out = []
+        for name, header, body in ms:
+            for m in re.finditer(r"(?<![\w.>:])%s\s*\(" % re.escape(fn), body):
+                out.append((name, header, body, m.start()))
+        return out
+
+    def under_x(name, body, pos, seen):
+        locks = locks_of(body)
+        if held(locks, pos, "_mutex", "X"):
+            return True
+        if any(l[2] == "_mutex" for l in locks):
+            return False                      # has a guard on _mutex, but not around this site
+        if name in seen:
+            return False
+        cs = callers(name)
+        cs = [c for c in cs if c[0] != name]
+        if not cs:
+            return False
+        return all(under_x(c[0], c[2], c[3], seen | {name}) for c in cs)
+
+    mctor = re.search(r"load\(\);\s*(\w+)\(\);\s*openLogFile\(\);", src)
+    ctor_only = {"load", "KVStore"} | ({mctor.group(1)} if mctor else set())
+    writers_ok = True
+    store_ok = True
+    writer_fns = []
+    for name, header, body in ms:
+        if name in ("get", "updateCache", "invalidateCache"):
+            continue
+        sites = [m.start() for m in _CACHE_WRITE_RE.finditer(body)] + [m.start() for m in re.finditer(r"\b(?:updateCache|invalidateCache)\s*\(", body)]
+        if sites:
+            writer_fns.append(name)
+        for p in sites:
+            writers_ok &= under_x(name, body, p, frozenset())
+        if name not in ctor_only:
+            for m in _STORE_WRITE_RE.finditer(body):
+                store_ok &= under_x(name, body, m.start(), frozenset())
+    want_writers = ["clear", "compactLocked", "evictionCallback", "expireAt", "persist", "remove", "set", "set", "setBatch", "setBatch"]
+    if sorted(writer_fns) != want_writers:
+        raise TranslateError("lock scopes: the cache is updated in %r, expected %r" % (sorted(writer_fns), want_writers))
+    # updateCache / invalidateCache are called from get() and from the writers only
+    for fn in ("updateCache", "invalidateCache"):
+        who = sorted(set(c[0] for c in callers(fn)))
+        if not set(who) <= set(want_writers) | {"get"}:
+            raise TranslateError("lock scopes: %s is called from %r" % (fn, who))
+    return {"cache": cache_ok, "get": get_ok, "fast": fast_ok, "writers": writers_ok, "store": store_ok}
+
+
+
 def gen(repo):
     f = "include/iora/storage/kvstore.hpp"
     j = "include/iora/storage/json_file_store.hpp"
@@ -247,6 +434,18 @@ def gen(repo):
     t += "def loadTruncatesTornTail : Bool := %s\ndef loadSweepsOnceAtEnd : Bool := %s\n" % (str(truncates_tail).lower(), str(sweeps_once).lower())
     t += "/-- goodEnd = stream position right after every completely read record body, before any `continue` (the only write to goodEnd in the loop) -/\n"
     t += "def loadGoodEndCountsEveryCompleteRecord : Bool := %s\n" % str(good_end_ok).lower()
+    lf = _lock_facts(src)
+    t += ("/-- lock scopes of `KVStore` (RAII guards on `_mutex` / `_cacheMutex`, live to the end of their block):\n"
+          "  * `getRefillsCacheUnderStoreLock`: in `get()` the lookup of `_kv`/`_expiry` and the one call of `updateCache` lie inside ONE guard on `_mutex`;\n"
+          "  * `getFastPathTakesCacheLockOnly`: the cache lookup at the top of `get()` holds `_cacheMutex` and not `_mutex`;\n"
+          "  * `writersTouchCacheUnderStoreLock`: every other function that changes `_cache` (directly or through `updateCache`/`invalidateCache`:\n"
+          "    set, set+ttl, remove, setBatch x2, expireAt, persist, clear, evictionCallback, compactLocked) does it while `_mutex` is held exclusively\n"
+          "    (own guard, or a guard-less helper all of whose call sites are);\n"
+          "  * `storeWritesUnderStoreLock`: the same for every write to `_kv` / `_expiry` outside the constructor-only functions;\n"
+          "  * `cacheAccessUnderCacheLock`: every read of `_cache` holds `_cacheMutex`, every write holds it exclusively -/\n")
+    t += "def getRefillsCacheUnderStoreLock : Bool := %s\ndef getFastPathTakesCacheLockOnly : Bool := %s\ndef writersTouchCacheUnderStoreLock : Bool := %s\n" % (
+        str(lf["get"]).lower(), str(lf["fast"]).lower(), str(lf["writers"]).lower())
+    t += "def storeWritesUnderStoreLock : Bool := %s\ndef cacheAccessUnderCacheLock : Bool := %s\n" % (str(lf["store"]).lower(), str(lf["cache"]).lower())
     t += "/-- `JsonFileStore::saveToFile`: writes a sibling temp file and renames it over the target (true) / truncates the live file in place (false) -/\n"
     t += "def jsonSaveViaTempRename : Bool := %s\n" % str(via_tmp).lower()
     t += "end Iora.Gen.Kv\n"
